@@ -284,6 +284,8 @@ class Ctx:
 
     def oblige(self, state, name, goal, meta=None):
         full = f"{self.prefix}.{name}"
+        if self.contract.options.get("solver"):
+            meta = {**(meta or {}), "solver": self.contract.options["solver"]}
         ob = Obligation(full, state.pc, goal, meta)
         if goal is True:
             # decided by evaluation on this path (no solver needed); still counted
@@ -333,6 +335,15 @@ class _CalleeApply:
             res_builder, reqs, enss, assumed = cc.result, cc.requires, cc.ensures, cc.assumed
         for label, fn in reqs:
             ctx.oblige(st, f"pre.{fv.qualname}.{label}", fn(a))
+        # exceptional exits the callee's contract allows (its own `raises` clause is verified against its body):
+        # a nondeterministic choice at the call site, so that the caller's handlers are explored
+        may_raise = cc.options.get("may_raise", ()) if isinstance(cc, Contract) else getattr(cc, "may_raise", ())
+        for exc in may_raise:
+            if interp.explorer is None:
+                raise Unsupported("callee that may raise outside exploration")
+            ctx.by_contract[self.tgt] = {"assumed": assumed, "note": getattr(cc, "note", "")}
+            if interp.explorer.decide(T.Fresh.bool("raises_" + exc)):
+                raise PyRaise(ExcVal(exc, ()))
         res = res_builder(MkCall(st), raw)
         r = wrap(ctx, interp, st, res)
         for label, fn in enss:
@@ -470,6 +481,7 @@ def verify_contract(prop, contract, registry=None, options=None, sizes=None, onl
                     a = NS({k: wrap(ctx, interp, snap, v) for k, v in args.items()})
                     a.__dict__["old"] = ctx.old_ns
                     a.__dict__["_pc"] = list(snap.pc)
+                    a.__dict__["_ghost"] = dict(snap.ghost)
                     r = wrap(ctx, interp, snap, payload)
                     for ens in contract.ensures:
                         lab, fn = ens[0], ens[1]
@@ -646,6 +658,17 @@ def _solve_one(args):
     trig = _has_trig(fs)
     nonlinear = _has_nonlinear(fs)
     short = min(4000, timeout_ms)
+    if ob.meta.get("solver") == "abstract-first":
+        # deep nonlinear terms (unrolled iterations): hypotheses instantiated at the skolem constants, formulas
+        # normalised by z3's simplifier, products/quotients abstracted (sound for unsat) -- before the plain attempt
+        try:
+            fi0 = [z3.simplify(f) for f in ob.formulas(extra_trig=trig, instantiate=True)]
+            r0, _ = _z3_check(T.abstract_nonlinear(fi0), min(timeout_ms, 15000))
+            attempts.append(f"z3[inst+simplify+nl-abstraction]={r0}")
+            if r0 == z3.unsat:
+                return (idx, "discharged", "z3+nl-abstraction", time.time() - t0, None, " ".join(attempts))
+        except Exception as e:
+            attempts.append(f"nl-abstraction-error={type(e).__name__}:{e}")
     if nonlinear:
         # products of symbolic terms: the abstraction (sound for unsat) is tried first, it is the
         # robust route; the exact nonlinear engine comes afterwards
